@@ -467,3 +467,80 @@ Example C06_refusal_concrete :
   c06_refusal_case [world_of 3 (refuse_all [] [8; 17; 17])] true true true = 0 /\
   c06_refusal_case [[[8]; [17]; [17]]] false true true = 2.
 Proof. vm_compute. repeat split; reflexivity. Qed.
+
+(* ---- node layouts: the ranks of the world report different processor names ----
+   [hosts]: the processor name of every world rank; [nproc hosts mw]: the number of processing
+   ranks the write pipeline uses (the first min(mw, size) ranks on the reader's node, minus the
+   writer), None = the request is refused on every rank; [scatter np]: a chunk cut into np pieces
+   (numpy.array_split), one per processing rank; [scatter_var nsplit np]: cut into nsplit pieces,
+   one handed to each of the np processing ranks *)
+
+(* for every assignment of processor names, every worker limit, every list of chunks, every
+   schedule: when the writer stops it has stored exactly the input records *)
+Theorem C06_layout_no_loss :
+  forall (A : Type) hosts mw np sm (data : list (list A)) (s : wst A),
+  nproc hosts mw = Some np ->
+  wreach Sync sm (winit (map (scatter np) data) (np - 1)) s -> stopped s = true ->
+  Permutation (concat data) (stored s) /\ unreceived s = [].
+Proof. exact layout_no_loss. Qed.
+Print Assumptions C06_layout_no_loss.
+
+(* the scatter step of the protocol is enabled: one piece per further processing rank *)
+Theorem C06_layout_scatter_enabled :
+  forall (A : Type) np (l : list A), 0 < np -> length (snd (scatter np l)) = np - 1.
+Proof. exact @scatter_length. Qed.
+Print Assumptions C06_layout_scatter_enabled.
+
+(* writer + processing ranks = the allowed ranks on the reader's node; a request is refused
+   exactly when fewer than two workers are allowed or the reader has no allowed rank on its node *)
+Theorem C06_layout_participants :
+  forall hosts mw np, nproc hosts mw = Some np -> length (active_ranks hosts mw) = S np /\ 0 < np.
+Proof. intros hosts mw np H. split; [exact (nproc_length _ _ H)|exact (nproc_pos _ _ H)]. Qed.
+Print Assumptions C06_layout_participants.
+
+Theorem C06_layout_refused_iff :
+  forall hosts mw,
+  nproc hosts mw = None <-> eff_workers (length hosts) mw < 2 \/ length (active_ranks hosts mw) < 2.
+Proof. exact nproc_none_iff. Qed.
+Print Assumptions C06_layout_refused_iff.
+
+(* on ONE node the number of processing ranks is the worker limit minus the writer, and cutting a
+   chunk by that number is the scatter: worlds of one node cannot tell the two apart, whatever
+   their size, worker limit and schedule *)
+Theorem C06_layout_single_node :
+  forall h0 t mw, Forall (eq h0) t ->
+  nproc (h0 :: t) mw = if eff_workers (S (length t)) mw <? 2 then None
+                       else Some (eff_workers (S (length t)) mw - 1).
+Proof. exact nproc_single_node. Qed.
+Print Assumptions C06_layout_single_node.
+
+Theorem C06_layout_variant_single_node_agrees :
+  forall (A : Type) h0 t mw np (l : list A),
+  Forall (eq h0) t -> nproc (h0 :: t) mw = Some np ->
+  scatter_var (eff_workers (S (length t)) mw - 1) np l = scatter np l.
+Proof. exact variant_single_node_agrees. Qed.
+Print Assumptions C06_layout_variant_single_node_agrees.
+
+(* two nodes with two ranks each, no worker limit: one processing rank.  Cutting by the worker
+   limit loses two of three records on EVERY schedule, the writer stops, nothing is left unreceived *)
+Theorem C06_layout_variant_multi_node_refuted :
+  nproc [0; 0; 1; 1] None = Some 1 /\
+  forall sm (s : wst nat),
+    wreach Sync sm (winit (map (scatter_var (eff_workers 4 None - 1) 1) [[1; 2; 3]]) (1 - 1)) s ->
+    stopped s = true -> stored s <> [] /\ ~ Permutation (concat [[1; 2; 3]]) (stored s).
+Proof. exact variant_multi_node_refuted. Qed.
+Print Assumptions C06_layout_variant_multi_node_refuted.
+
+(* non-vacuity: 4 ranks named 0,1,0,0 without a limit - ranks 0,2,3 are on the reader's node, 2
+   writes, 0 and 3 process chunks of 16, 16, 9 records (code 0); the same world when only the
+   first of three pieces of every chunk reaches a processing rank: the model disagrees on how a
+   chunk is cut only if the pieces are unbalanced, the lost records are reported (flags 1, 2);
+   a reader alone on its node: refused (code 0) *)
+Example C06_layout_concrete :
+  active_ranks [0; 1; 0; 0] None = [0; 2; 3] /\ nproc [0; 1; 0; 0] (Some 2) = Some 1 /\
+  array_split [1; 2; 3; 4; 5] 3 = [[1; 2]; [3; 4]; [5]] /\
+  c06_layout_case [0; 1; 0; 0] None false 2 [0; 2; 3] [0; 3] [[8; 8]; [8; 8]; [5; 4]] 41 41 = 0 /\
+  c06_layout_case [0; 0; 1; 1] None false 1 [0; 1] [0] [[6]; [6]; [3]] 41 15 = 6 /\
+  c06_layout_case [0; 1; 1] None true 0 [] [] [] 41 0 = 0 /\
+  c06_layout_case [0; 1; 1] None false 1 [0; 1] [0] [[41]] 41 41 = 1.
+Proof. vm_compute. repeat split; reflexivity. Qed.
